@@ -728,6 +728,7 @@ func (x *Exec) atomicOp(st *State, fn *ssa.Function, args []SVal, pos token.Pos,
 	case strings.HasPrefix(op, "Load"):
 		cur := x.yield(st, key, vt)
 		st.Named["loaded("+short+")"] = x.termOf(st, cur)
+		st.NamedV["loaded("+short+")"] = cur // with its sort (a pointer or interface is not an integer)
 		ret(cur)
 	case strings.HasPrefix(op, "Store"):
 		cur := x.yield(st, key, vt)
